@@ -85,7 +85,7 @@ def run(report):
                             'connected ports (add service, disconnect one, remove service); invariants and views after every call')
     report.require(any(k.startswith('add_service:ok') for k in g0['outcomes']) and any(k.startswith('add_service:raise') for k in g0['outcomes']),
                    'service types accepted and refused in the type sweep')
-    depths = {('exp', 'empty'): 3 if q else 4, ('exp', 'R1'): 2 if q else 3, ('exp', 'R2'): 2 if q else 2, ('exp', 'R3'): 1,
+    depths = {('exp', 'empty'): 3 if q else 4, ('exp', 'R1'): 2 if q else 3, ('exp', 'R2'): 2 if q else 2, ('exp', 'R3'): 1, ('exp', 'R4'): 1 if q else 2,
               ('sub', 'S0'): 3 if q else 5, ('sub', 'S1'): 2 if q else 3, ('sub', 'S2'): 2 if q else 3}
     groups = run_topo(report, MODELS, 'c07', depths)
     outs = {}
